@@ -34,6 +34,19 @@ def veq(a, b, tol=0.0) -> bool:
     return tol > 0 and abs(fa - fb) <= tol * max(abs(fa), abs(fb))
 
 
+def _fits_int64(v) -> bool:
+    "every number is an int within 64 bits (or a bool / small float): used where integer LITERALS of the query are the subject"
+    if isinstance(v, (list, tuple)):
+        return all(_fits_int64(x) for x in v)
+    if isinstance(v, bool):
+        return True
+    if isinstance(v, int):
+        return -2 ** 63 <= v < 2 ** 63
+    if isinstance(v, float):
+        return v == v and abs(v) <= 1e300
+    return False
+
+
 def _out_of_range(v) -> bool:
     if isinstance(v, (list, tuple)):
         return any(_out_of_range(x) for x in v)
@@ -108,13 +121,13 @@ ALT_SEMANTICS = [
 ]
 
 
-def classify_event(text, ev, er, extra_env=None, tol=0.0, loud_ok=False):
+def classify_event(text, ev, er, extra_env=None, tol=0.0, loud_ok=False, int64=False):
     """Compare one (query, event) execution with the reference.  Returns None if it agrees / is not defined,
     ("skip", why) if the reference does not define it, or a mismatch dict."""
     exp, _ = evaluate_stable(text, ev, extra_env=extra_env)
     if exp[0] in ("unsupported", "ambiguous"):
         return ("skip", exp[0])
-    if exp[0] == "rows" and _out_of_range(exp[1]):
+    if exp[0] == "rows" and _out_of_range(exp[1]) and not (int64 and _fits_int64(exp[1])):
         return ("skip", "out-of-range")    # beyond exactly representable integers / finite doubles: outside the statement
     obs_rows = None
     if er.end == "ok":
